@@ -10,46 +10,71 @@ specification and history lemmas: `MjProof/Lemmas/Vfs.lean`.
 the buffer API, `fileKey d f = FilePath(d,f).StripPath().Lower()` for the file API): that is the
 normalisation *the API applies*, and two spellings denote the same file iff they have the same key.
 
-Every full theorem is about `Env.fixed disk` — the model variant in which `mj_containsBufferVFS`
-normalises its argument and `FindMount` looks the full path up first — for every disk, every history
-(list of operations) and every name; they are proved by induction on the history.  The tree *as
-found* (`Env.asFound`) violates two clauses; the violations are exhibited as machine-checked
-counter-witnesses, and `…_asFound_partial` states what still holds for it.
+The model has two variant switches (`Env.normContains`, `Env.exactFirst`), one per defect found in
+the tree; `checks/c39.py` probes the real code and runs the correspondence against the matching
+variant.  Each theorem names exactly the switch it needs as a hypothesis, so that it is tied to the
+code as soon as the corresponding fix is in the tree:
+* no hypothesis: holds for every variant (state refinement, presence = added-and-not-deleted-since,
+  re-add, delete);
+* `e.normContains = true`: the clauses observed through `mj_containsBufferVFS`;
+* `e.exactFirst = true ∨ path ≠ ""`: the read clause (for the as-found `FindMount` only non-empty paths);
+* both: the full trace refinement `vfs_refines_spec`.
+All are for every disk, every history (list of operations) and every name, by induction on the
+history.  The as-found variant (`Env.asFound`) violates two clauses; the violations are exhibited as
+machine-checked counter-witnesses, and `…_partial` theorems state what still holds for it.
 -/
 namespace MjProof.C39
 open MjProof.Vfs
 
 /-! ## Refinement -/
 
-/-- **Refinement.**  Every history run on the (fixed) VFS model from the empty VFS is a trace of the
-    abstract specification `Name → Option Bytes` (`Sat`: each observed result is one the
+/-- **Refinement.**  For a model variant with both fixes, every history run from the empty VFS is a
+    trace of the abstract specification `Name → Option Bytes` (`Sat`: each observed result is one the
     specification allows in the abstract state reached so far), and the final mount table
     abstracts to the final abstract map. -/
-theorem vfs_refines_spec (disk : List (Str × DiskEntry)) (ops : List Op) :
-    Sat (Env.fixed disk) Abs.empty ops (run (Env.fixed disk) [] ops).1 ∧
-    abs (run (Env.fixed disk) [] ops).2 = specRun (Env.fixed disk) Abs.empty ops := by
-  have := run_refines (Env.fixed disk) [] ops (fun op _ => OpOK_fixed disk op)
+theorem vfs_refines_spec (e : Env) (hn : e.normContains = true) (hx : e.exactFirst = true) (ops : List Op) :
+    Sat e Abs.empty ops (run e [] ops).1 ∧ abs (run e [] ops).2 = specRun e Abs.empty ops := by
+  have hop : ∀ op ∈ ops, OpOK e op := by
+    intro op _
+    cases op with
+    | has n => cases n <;> simp [OpOK, hn]
+    | openRead d n => simp [OpOK, hx]
+    | _ => trivial
+  have := run_refines e [] ops hop
   simpa [abs_nil] using this
+
+example (disk : List (Str × DiskEntry)) : (Env.fixed disk).normContains = true ∧ (Env.fixed disk).exactFirst = true :=
+  ⟨rfl, rfl⟩
 
 /-- The same from any table (e.g. in the middle of a history). -/
-theorem vfs_refines_spec_from (disk : List (Str × DiskEntry)) (t : Tbl) (ops : List Op) :
-    Sat (Env.fixed disk) (abs t) ops (run (Env.fixed disk) t ops).1 ∧
-    abs (run (Env.fixed disk) t ops).2 = specRun (Env.fixed disk) (abs t) ops :=
-  run_refines (Env.fixed disk) t ops (fun op _ => OpOK_fixed disk op)
+theorem vfs_refines_spec_from (e : Env) (hn : e.normContains = true) (hx : e.exactFirst = true) (t : Tbl)
+    (ops : List Op) :
+    Sat e (abs t) ops (run e t ops).1 ∧ abs (run e t ops).2 = specRun e (abs t) ops := by
+  have hop : ∀ op ∈ ops, OpOK e op := by
+    intro op _
+    cases op with
+    | has n => cases n <;> simp [OpOK, hn]
+    | openRead d n => simp [OpOK, hx]
+    | _ => trivial
+  exact run_refines e t ops hop
 
-/-- **Tree as found (partial).**  With the raw-string `mj_containsBufferVFS` and the
-    `while (!str.empty())` loop of `FindMount`, refinement is only proved for histories in which every
-    `has` is asked with an already normalised name (`FilePath(n) = n`) and every read has a
-    non-empty path.  Missing: exactly the two cases below (`asFound_contains_counterexample`,
-    `asFound_read_counterexample`), where the real code violates the property. -/
-theorem vfs_refines_spec_asFound_partial (disk : List (Str × DiskEntry)) (ops : List Op)
-    (hops : ∀ op ∈ ops, OpOK (Env.asFound disk) op) :
-    Sat (Env.asFound disk) Abs.empty ops (run (Env.asFound disk) [] ops).1 ∧
-    abs (run (Env.asFound disk) [] ops).2 = specRun (Env.asFound disk) Abs.empty ops := by
-  have := run_refines (Env.asFound disk) [] ops hops
+/-- **State refinement, every variant.**  The mount table always abstracts to the abstract map reached
+    by the specification: neither defect corrupts the VFS contents, they only affect what
+    `mj_containsBufferVFS` / `mju_openResource` answer. -/
+theorem vfs_state_refines_spec (e : Env) (ops : List Op) :
+    abs (run e [] ops).2 = specRun e Abs.empty ops := by
+  simpa [abs_nil] using run_state e [] ops
+
+/-- **Trace refinement, any variant (partial).**  For a variant lacking a fix, refinement is proved
+    for histories in which every `has` is asked with an already normalised name (if
+    `normContains = false`) and every read has a non-empty path (if `exactFirst = false`).  Missing:
+    exactly `asFound_contains_counterexample` / `asFound_read_counterexample`. -/
+theorem vfs_refines_spec_partial (e : Env) (ops : List Op) (hops : ∀ op ∈ ops, OpOK e op) :
+    Sat e Abs.empty ops (run e [] ops).1 ∧ abs (run e [] ops).2 = specRun e Abs.empty ops := by
+  have := run_refines e [] ops hops
   simpa [abs_nil] using this
 
-/-- the hypothesis of `vfs_refines_spec_asFound_partial` is satisfiable by a non-trivial history. -/
+/-- the hypothesis of `vfs_refines_spec_partial` is satisfiable by a non-trivial history of the as-found variant. -/
 example : ∀ op ∈ [Op.addBuf "a/b.txt".toList [1], .has (some "a/b.txt".toList), .openRead none "a/b.txt".toList,
       .del (some "A/B.TXT".toList), .has (some "a/b.txt".toList)], OpOK (Env.asFound []) op := by
   decide
@@ -166,30 +191,32 @@ example : addTarget (Env.fixed []) (.addBuf "./a.txt".toList [9]) = some ("a.txt
     Tbl.get [("a.txt".toList, [1])] "a.txt".toList = some [1] := by decide
 
 /-- **Reading a present name through the resource API returns exactly the stored bytes**, whatever
-    else is mounted and whatever is on disk (fixed model; `dir`/`name` are combined and normalised
-    by `FilePath(dir, name)` as `mju_openResource` does). -/
-theorem read_present_exact (disk : List (Str × DiskEntry)) (t : Tbl) (d : Option Str) (n : Str) (b : Bytes)
-    (h : t.get (fp2 d n) = some b) :
-    step (Env.fixed disk) t (.openRead d n) = (.opened [b], t) := by
-  simp [step, openRead_present (Env.fixed disk) t d n b (Or.inl rfl) h]
+    else is mounted and whatever is on disk (`dir`/`name` are combined and normalised by
+    `FilePath(dir, name)` as `mju_openResource` does).  Needs the `FindMount` fix only for the empty
+    path. -/
+theorem read_present_exact (e : Env) (t : Tbl) (d : Option Str) (n : Str) (b : Bytes)
+    (hx : e.exactFirst = true ∨ fp2 d n ≠ []) (h : t.get (fp2 d n) = some b) :
+    step e t (.openRead d n) = (.opened [b], t) := by
+  simp [step, openRead_present e t d n b hx h]
 
-example : Tbl.get [("a.txt".toList, [1, 2])] (fp2 (some "x/..".toList) "a.txt".toList) = some [1, 2] := by decide
-
-/-- Tree as found: the same for every non-empty path (`_partial`: the empty path is
-    `asFound_read_counterexample`). -/
-theorem read_present_exact_asFound_partial (disk : List (Str × DiskEntry)) (t : Tbl) (d : Option Str)
-    (n : Str) (b : Bytes) (hne : fp2 d n ≠ []) (h : t.get (fp2 d n) = some b) :
-    step (Env.asFound disk) t (.openRead d n) = (.opened [b], t) := by
-  simp [step, openRead_present (Env.asFound disk) t d n b (Or.inr hne) h]
-
+example : (Env.fixed []).exactFirst = true ∧
+    Tbl.get [("a.txt".toList, [1, 2])] (fp2 (some "x/..".toList) "a.txt".toList) = some [1, 2] := by decide
 example : fp2 none "a.txt".toList ≠ [] ∧ Tbl.get [("a.txt".toList, [1])] (fp2 none "a.txt".toList) = some [1] := by
   decide
 
-/-- `mj_containsBufferVFS` (fixed model) answers 1 exactly for present names. -/
-theorem has_iff_present (disk : List (Str × DiskEntry)) (t : Tbl) (n : Str) :
-    (step (Env.fixed disk) t (.has (some n))).1 = .code 1 ↔ ∃ b, t.get (fp1 n) = some b := by
-  simp only [step, containsBuffer, Env.fixed, containsNorm, Tbl.has, b2i, if_true]
+/-- `mj_containsBufferVFS` (normalising variant) answers 1 exactly for present names. -/
+theorem has_iff_present (e : Env) (hn : e.normContains = true) (t : Tbl) (n : Str) :
+    (step e t (.has (some n))).1 = .code 1 ↔ ∃ b, t.get (fp1 n) = some b := by
+  simp only [step, containsBuffer, hn, containsNorm, Tbl.has, b2i, if_true]
   exact code_one_iff _
+
+/-- Raw-lookup variant (partial): the same for names that are already normalised. -/
+theorem has_iff_present_raw_partial (e : Env) (t : Tbl) (n : Str) (h : fp1 n = n) :
+    (step e t (.has (some n))).1 = .code 1 ↔ ∃ b, t.get (fp1 n) = some b := by
+  simp only [step, containsBuffer_eq e t n (Or.inr h), Tbl.has, b2i]
+  exact code_one_iff _
+
+example : fp1 "p/a.txt".toList = "p/a.txt".toList := by decide
 
 /-- `mj_containsFileVFS` answers 1 exactly for present (file-API) names. -/
 theorem hasFile_iff_present (e : Env) (t : Tbl) (d : Option Str) (f : Str) :
@@ -254,22 +281,18 @@ example : (step (Env.fixed []) [("b.txt".toList, [1])] (.del (some "X/B.TXT".toL
 
 /-! ## The property over whole histories -/
 
-/-- **Present exactly when added and not deleted since.**  After any history `ops` run from the
-    empty VFS (fixed model), name `k` is present with contents `b` iff the history contains an add
-    (buffer or file) for `k` with contents `b` that returned 0, after which no operation removed
+/-- **Present exactly when added and not deleted since** (every model variant).  After any history
+    `ops` run from the empty VFS, name `k` is present with contents `b` iff the history contains an
+    add (buffer or file) for `k` with contents `b` that returned 0, after which no operation removed
     `k` (no successful delete targeting `k`, no reset).  Because a re-add of a present name fails,
     `b` is the contents of the *first* successful add since the last removal. -/
-theorem present_iff_added_not_deleted_since (disk : List (Str × DiskEntry)) (ops : List Op)
-    (k : Str) (b : Bytes) :
-    (run (Env.fixed disk) [] ops).2.get k = some b ↔
+theorem present_iff_added_not_deleted_since (e : Env) (ops : List Op) (k : Str) (b : Bytes) :
+    (run e [] ops).2.get k = some b ↔
       ∃ pre op post, ops = pre ++ op :: post ∧
-        AddedOk (Env.fixed disk) (run (Env.fixed disk) [] pre).2 op k b ∧
-        ∀ p1 d p2, post = p1 ++ d :: p2 →
-          ¬ DeletedOk (Env.fixed disk) (run (Env.fixed disk) [] (pre ++ op :: p1)).2 d k := by
-  have href : ∀ l, abs (run (Env.fixed disk) [] l).2 = specRun (Env.fixed disk) Abs.empty l :=
-    fun l => (vfs_refines_spec disk l).2
-  have h0 : (run (Env.fixed disk) [] ops).2.get k = specRun (Env.fixed disk) Abs.empty ops k :=
-    congrFun (href ops) k
+        AddedOk e (run e [] pre).2 op k b ∧
+        ∀ p1 d p2, post = p1 ++ d :: p2 → ¬ DeletedOk e (run e [] (pre ++ op :: p1)).2 d k := by
+  have href : ∀ l, abs (run e [] l).2 = specRun e Abs.empty l := fun l => vfs_state_refines_spec e l
+  have h0 : (run e [] ops).2.get k = specRun e Abs.empty ops k := congrFun (href ops) k
   rw [h0, specRun_key_iff]
   constructor
   · rintro (⟨h, _⟩ | ⟨pre, op, post, hp, hi, hno⟩)
@@ -289,38 +312,49 @@ theorem present_iff_added_not_deleted_since (disk : List (Str × DiskEntry)) (op
       rw [← specRun_append, List.append_assoc, List.singleton_append, ← href] at hrem
       exact hno p1 d p2 hpost ((Removes_iff_DeletedOk _ _ _ _).1 hrem)
 
-/-- The same as an observation through `mj_containsBufferVFS`: after any history, asking for any
-    spelling `n` answers 1 iff some add for the name `FilePath(n)` succeeded and the name was not
-    removed since. -/
-theorem has_iff_added_not_deleted_since (disk : List (Str × DiskEntry)) (ops : List Op) (n : Str) :
-    (step (Env.fixed disk) (run (Env.fixed disk) [] ops).2 (.has (some n))).1 = .code 1 ↔
+/-- The same as an observation through `mj_containsBufferVFS` (normalising variant): after any
+    history, asking for any spelling `n` answers 1 iff some add for the name `FilePath(n)` succeeded
+    and the name was not removed since. -/
+theorem has_iff_added_not_deleted_since (e : Env) (hn : e.normContains = true) (ops : List Op) (n : Str) :
+    (step e (run e [] ops).2 (.has (some n))).1 = .code 1 ↔
       ∃ b pre op post, ops = pre ++ op :: post ∧
-        AddedOk (Env.fixed disk) (run (Env.fixed disk) [] pre).2 op (fp1 n) b ∧
-        ∀ p1 d p2, post = p1 ++ d :: p2 →
-          ¬ DeletedOk (Env.fixed disk) (run (Env.fixed disk) [] (pre ++ op :: p1)).2 d (fp1 n) := by
-  rw [has_iff_present]
+        AddedOk e (run e [] pre).2 op (fp1 n) b ∧
+        ∀ p1 d p2, post = p1 ++ d :: p2 → ¬ DeletedOk e (run e [] (pre ++ op :: p1)).2 d (fp1 n) := by
+  rw [has_iff_present e hn]
   constructor
   · rintro ⟨b, hb⟩
-    exact ⟨b, (present_iff_added_not_deleted_since disk ops (fp1 n) b).1 hb⟩
+    exact ⟨b, (present_iff_added_not_deleted_since e ops (fp1 n) b).1 hb⟩
   · rintro ⟨b, h⟩
-    exact ⟨b, (present_iff_added_not_deleted_since disk ops (fp1 n) b).2 h⟩
+    exact ⟨b, (present_iff_added_not_deleted_since e ops (fp1 n) b).2 h⟩
+
+/-- Raw-lookup variant (partial): the same for spellings that are already normalised. -/
+theorem has_iff_added_not_deleted_since_raw_partial (e : Env) (ops : List Op) (n : Str) (h : fp1 n = n) :
+    (step e (run e [] ops).2 (.has (some n))).1 = .code 1 ↔
+      ∃ b pre op post, ops = pre ++ op :: post ∧
+        AddedOk e (run e [] pre).2 op (fp1 n) b ∧
+        ∀ p1 d p2, post = p1 ++ d :: p2 → ¬ DeletedOk e (run e [] (pre ++ op :: p1)).2 d (fp1 n) := by
+  rw [has_iff_present_raw_partial e _ n h]
+  constructor
+  · rintro ⟨b, hb⟩
+    exact ⟨b, (present_iff_added_not_deleted_since e ops (fp1 n) b).1 hb⟩
+  · rintro ⟨b, h⟩
+    exact ⟨b, (present_iff_added_not_deleted_since e ops (fp1 n) b).2 h⟩
 
 /-- **Read returns exactly the added bytes**, over histories: if `mj_addBufferVFS(n, b)` returned 0
     at some point and the name was not removed afterwards, then after the whole history a read of
     any spelling `(d, n')` with the same normalised path returns exactly `b` — no matter which
     other adds (including failed re-adds of the same name with other contents), deletes and lookups
-    happened in between. -/
-theorem read_returns_added_bytes (disk : List (Str × DiskEntry)) (pre post : List Op) (n : Str) (b : Bytes)
-    (d : Option Str) (n' : Str) (hsame : fp2 d n' = fp1 n)
-    (hadd : (step (Env.fixed disk) (run (Env.fixed disk) [] pre).2 (.addBuf n b)).1 = .code 0)
+    happened in between.  Needs the `FindMount` fix only when the normalised path is empty. -/
+theorem read_returns_added_bytes (e : Env) (pre post : List Op) (n : Str) (b : Bytes)
+    (d : Option Str) (n' : Str) (hsame : fp2 d n' = fp1 n) (hx : e.exactFirst = true ∨ fp1 n ≠ [])
+    (hadd : (step e (run e [] pre).2 (.addBuf n b)).1 = .code 0)
     (hkeep : ∀ p1 o p2, post = p1 ++ o :: p2 →
-      ¬ DeletedOk (Env.fixed disk) (run (Env.fixed disk) [] (pre ++ .addBuf n b :: p1)).2 o (fp1 n)) :
-    (step (Env.fixed disk) (run (Env.fixed disk) [] (pre ++ .addBuf n b :: post)).2 (.openRead d n')).1
-      = .opened [b] := by
-  have hp : (run (Env.fixed disk) [] (pre ++ .addBuf n b :: post)).2.get (fp1 n) = some b :=
-    (present_iff_added_not_deleted_since disk _ (fp1 n) b).2
+      ¬ DeletedOk e (run e [] (pre ++ .addBuf n b :: p1)).2 o (fp1 n)) :
+    (step e (run e [] (pre ++ .addBuf n b :: post)).2 (.openRead d n')).1 = .opened [b] := by
+  have hp : (run e [] (pre ++ .addBuf n b :: post)).2.get (fp1 n) = some b :=
+    (present_iff_added_not_deleted_since e _ (fp1 n) b).2
       ⟨pre, .addBuf n b, post, rfl, ⟨rfl, hadd⟩, hkeep⟩
-  rw [read_present_exact disk _ d n' b (by rw [hsame]; exact hp)]
+  rw [read_present_exact e _ d n' b (by rw [hsame]; exact hx) (by rw [hsame]; exact hp)]
 
 /-- non-vacuity of `read_returns_added_bytes`: a history with a failed re-add, an unrelated delete
     and a differently spelled read. -/
